@@ -47,6 +47,75 @@ impl Mode {
         })
     }
 
+    /// The address size of an instruction in bits (the `0x67` prefix selects
+    /// 16-bit addressing in 32-bit mode and 32-bit addressing in 64-bit mode).
+    pub(crate) fn address_bits(&self, instruction: &capstone::Instr) -> usize {
+        if let Some(detail) = instruction.detail.as_ref() {
+            if let capstone::DetailsArch::X86(x86) = &detail.arch {
+                if x86.addr_size != 0 {
+                    return x86.addr_size as usize * 8;
+                }
+            }
+        }
+        self.bits()
+    }
+
+    /// Gets the offset of a memory operand inside its segment (what `lea`
+    /// yields): base + index * scale + displacement, computed modulo the
+    /// address size of the instruction and zero-extended to the bits of this
+    /// mode.
+    pub(crate) fn operand_offset(
+        &self,
+        operand: &cs_x86_op,
+        instruction: &capstone::Instr,
+    ) -> Result<Expression, Error> {
+        let mem = operand.mem();
+        let address_bits = self.address_bits(instruction);
+
+        let base = match mem.base {
+            x86_reg::X86_REG_INVALID => None,
+            reg => Some(self.get_register_expression(reg, instruction)?),
+        };
+
+        let index = match mem.index {
+            x86_reg::X86_REG_INVALID => None,
+            reg => Some(self.get_register_expression(reg, instruction)?),
+        };
+
+        let scale = Expr::constant(Constant::new(mem.scale as i64 as u64, address_bits));
+
+        let si = match index {
+            Some(index) => Some(Expr::mul(index, scale)?),
+            None => None,
+        };
+
+        // Handle base and scale/index
+        let op: Option<Expression> = match (base, si) {
+            (Some(base), Some(si)) => Some(Expr::add(base, si)?),
+            (Some(base), None) => Some(base),
+            (None, si) => si,
+        };
+
+        // handle disp
+        let op = if let Some(op) = op {
+            match mem.disp.cmp(&0) {
+                Ordering::Greater => Expr::add(op, expr_const(mem.disp as u64, address_bits))?,
+                Ordering::Less => {
+                    Expr::sub(op, expr_const(mem.disp.unsigned_abs(), address_bits))?
+                }
+                Ordering::Equal => op,
+            }
+        } else {
+            expr_const(mem.disp as u64, address_bits)
+        };
+
+        if op.bits() < self.bits() {
+            Expr::zext(self.bits(), op)
+        } else {
+            Ok(op)
+        }
+    }
+
     /// Gets the value of an operand as an IL expression
     pub(crate) fn operand_value(
         &self,
@@ -61,47 +130,7 @@ impl Mode {
             }
             x86_op_type::X86_OP_MEM => {
                 let mem = operand.mem();
-                let base_capstone_reg = mem.base;
-                let index_capstone_reg = mem.index;
-
-                let base = match base_capstone_reg {
-                    x86_reg::X86_REG_INVALID => None,
-                    reg => Some(self.get_register_expression(reg, instruction)?),
-                };
-
-                let index = match index_capstone_reg {
-                    x86_reg::X86_REG_INVALID => None,
-                    reg => Some(self.get_register_expression(reg, instruction)?),
-                };
-
-                let scale = Expr::constant(Constant::new(mem.scale as i64 as u64, self.bits()));
-
-                let si = match index {
-                    Some(index) => Some(Expr::mul(index, scale)?),
-                    None => None,
-                };
-
-                // Handle base and scale/index
-                let op: Option<Expression> = match (base, si) {
-                    (Some(base), Some(si)) => Some(Expr::add(base, si)?),
-                    (Some(base), None) => Some(base),
-                    (None, si) => si,
-                };
-
-                // handle disp
-                let op = if let Some(op) = op {
-                    match mem.disp.cmp(&0) {
-                        Ordering::Greater => {
-                            Expr::add(op, expr_const(mem.disp as u64, self.bits()))?
-                        }
-                        Ordering::Less => {
-                            Expr::sub(op, expr_const(mem.disp.unsigned_abs(), self.bits()))?
-                        }
-                        Ordering::Equal => op,
-                    }
-                } else {
-                    expr_const(mem.disp as u64, self.bits())
-                };
+                let op = self.operand_offset(operand, instruction)?;
 
                 match mem.segment {
                     x86_reg::X86_REG_INVALID => Ok(op),
